@@ -18,7 +18,12 @@ SUPP_FIELDS = ['IS', 'IDI', 'RM', 'OO', 'OQ']
 def gen_topology(rng, nmax):
     n = rng.randint(1, nmax)
     kind = rng.choice(['serial', 'assembly', 'distribution', 'dag', 'dag']) if n > 1 else 'single'
-    ids = rng.sample(range(1, 60), n) if rng.random() < 0.6 else list(range(1, n + 1))
+    u = rng.random()
+    if u < 0.5: ids = rng.sample(range(1, 60), n)
+    elif u < 0.75: ids = list(range(1, n + 1))
+    else:                            # node index 0 is a valid index (truthiness slips show up only there)
+        ids = rng.sample(range(0, n + 2), n)
+        if 0 not in ids: ids[rng.randrange(n)] = 0
     edges = []
     if kind == 'serial':
         edges = [(ids[i], ids[i + 1]) for i in range(n - 1)]
@@ -91,7 +96,22 @@ def case_from_json(c):
             v[f] = Fraction(v[f])
         if v['ith'] is not None:
             v['ith'] = Fraction(v['ith'])
+        for f in ('hf', 'pf'):
+            if v.get(f): v[f] = [Fraction(x) for x in v[f]]
     return c
+
+
+def cost_fn(ab, stockout=False):
+    """optional cost functions of a node: holding f(x) = a x + b x^2 of the items held (not clamped, so a wrong argument shows),
+    stockout g(IL) = a (-IL)+ + b ((-IL)+)^2 of the signed ending inventory level"""
+    a, b = float(ab[0]), float(ab[1])
+    if stockout:
+        return lambda il: a * max(0.0, -il) + b * max(0.0, -il) ** 2
+    return lambda x: a * x + b * x * x
+
+
+def has_cost_fn(case):
+    return any(v.get('hf') or v.get('pf') for v in case['nodes'].values())
 
 
 # ------------------------------------------------------------------------------------------------
@@ -126,6 +146,9 @@ def build_impl(case):
         disruption_process={i: (DisruptionProcess(random_process_type='E', disruption_type=nd[i]['dis'][0],
                                                   disruption_state_list=list(nd[i]['dis'][1])) if nd[i]['dis'] else None) for i in ids})
     net = network_from_edges(edges=[tuple(e) for e in case['edges']], node_order_in_lists=list(ids), **kw)
+    for n in net.nodes:
+        if nd[n.index].get('hf'): n.local_holding_cost_function = cost_fn(nd[n.index]['hf'])
+        if nd[n.index].get('pf'): n.stockout_cost_function = cost_fn(nd[n.index]['pf'], stockout=True)
     return net
 
 
